@@ -257,11 +257,13 @@ def chunk_unmerged(chunk, acc):
 STUB_ALPHA = (0x90, 0xFC, 0xE8, 0x00)
 
 
-def detect(blob: bytes):
+def detect(blob: bytes, pos: int = 0):
     from dissect.cobaltstrike.xordecode import XorEncodedFile
 
     try:
-        xf = XorEncodedFile.from_file(io.BytesIO(blob))
+        fh = io.BytesIO(blob)
+        fh.seek(pos)
+        xf = XorEncodedFile.from_file(fh)
     except ValueError:
         return ("ValueError",)
     except Exception as e:  # noqa
@@ -294,6 +296,14 @@ def detect_case(acc, image, stub, marker, size_ok, trailer, nonce, meta):
             return
         if pos0 != 0 or data != image:
             acc.fail("C09/detect/view-not-image", case, {"tell": 0, "prefix": image[:16].hex()}, {"tell": pos0, "prefix": bytes(data[:16]).hex(), "len": len(data)})
+            return
+        # detection does not depend on where the caller left the handle (already read to its end, or part-way)
+        for pos in (len(blob), 7) if (len(stub) <= 2 or len(stub) > 100) else ():
+            r2 = detect(blob, pos)
+            acc.transitions += 1
+            if r2[:2] != ("ok", len(full_stub)):
+                acc.fail("C09/detect/depends-on-handle-position", dict(case, handle_position=pos), {"nonce_offset": len(full_stub)}, list(r2[:2]))
+                return
     else:
         if res[0] == "EXC":
             acc.fail("C09/detect/wrong-exception", case, "ValueError", res[1])
